@@ -13,7 +13,11 @@ CONSTANTS Caps,      \* queue capacities
 
 VARIABLE cfg
 
-Init == cfg \in [cap : Caps, nprod : NProds, shared : BOOLEAN, stop : BOOLEAN, keep : BOOLEAN, mix : Mixes, ops : {Ops}]
+\* variant "chan" = pipeline.rs SampleQueueSender / ChannelMediaSource: one sender shared through an Arc, no clone,
+\* and `stop` means "the consumer drops the receiver part-way" instead of SampleStreamTrack::stop()
+Init == /\ cfg \in [cap : Caps, nprod : NProds, shared : BOOLEAN, stop : BOOLEAN, keep : BOOLEAN, mix : Mixes, ops : {Ops},
+                    variant : {"track", "chan"}]
+        /\ cfg.variant = "chan" => (cfg.shared /\ cfg.mix # "clone")
 Next == UNCHANGED cfg
 Spec == Init /\ [][Next]_cfg
 
